@@ -100,9 +100,6 @@ class ModuleInfo(object):
         self.functions = {}
         self.classes = {}
         self.globals = {}   # name -> list of assigned value nodes (module level)
-        for node in ast.walk(self.tree):
-            for child in ast.iter_child_nodes(node):
-                child._parent = node
 
 
 class Project(object):
@@ -144,6 +141,30 @@ class Project(object):
                 raise AnalysisError("cannot parse %s: %s" % (path, e))
             self.modules[name] = mod
         self.digest = h.hexdigest()
+        if os.environ.get("LASIO_SA_NORMALIZE", "1") != "0":
+            from .normalize import propagate_default_params, fold_constant_strings, lower_getsetattr, inline_helpers, \
+                inline_expression_helpers, extern_helpers
+            trees = {m.name: m.tree for m in self.modules.values()}
+            for t in trees.values():
+                for c in t.body:
+                    if isinstance(c, ast.ClassDef):
+                        for f in c.body:
+                            if isinstance(f, ast.FunctionDef):
+                                f._parent_class = c.name
+            for _round in range(3):
+                n = propagate_default_params(trees)
+                for m in self.modules.values():
+                    n += fold_constant_strings(m.tree)
+                    lower_getsetattr(m.tree)
+                    ext = extern_helpers(m.tree, m.name, raw_trees)
+                    n += inline_helpers(m.tree, ext)
+                    n += inline_expression_helpers(m.tree, ext)
+                if not n:
+                    break
+        for m in self.modules.values():
+            for node in ast.walk(m.tree):
+                for child in ast.iter_child_nodes(node):
+                    child._parent = node
         for mod in self.modules.values():
             self._index_module(mod)
         for cls in self.classes.values():
